@@ -259,6 +259,54 @@ func (w *World) Actions(rec *Rec, h Hooks) map[string]func(*rapid.T) {
 
 			do(a, "store", fmt.Sprintf("STORE %d %s (%s)", n, pick(t, "op", []string{"+FLAGS", "-FLAGS", "FLAGS"}), pick(t, "flag", []string{`\Flagged`, `\Seen`, `\Answered`, "kw1"})))
 		},
+		// A burst by one session: flag changes before and after the removal of an earlier message, with nobody else
+		// flushing in between - the other sessions get all of it in one batch (merging of the untagged responses).
+		"burst": func(t *rapid.T) {
+			var cands []*Sess
+
+			for _, s := range w.FreeSelected(true) {
+				if len(s.Mirror.Msgs) >= 3 {
+					cands = append(cands, s)
+				}
+			}
+
+			a := w.PickSess(t, cands)
+
+			do := func(kind, cmd string) *imapc.Result {
+				r := a.Do(cmd)
+				rec.Op("%s %s -> %s", a.Name, r.Cmd, r.Status)
+				on(t, a, kind, r)
+
+				return r
+			}
+
+			flag := func() string {
+				return pick(t, "bflag", []string{`\Flagged`, `\Answered`, `\Seen`, `\Draft`, "kw1"})
+			}
+
+			w.Label("op:burst")
+
+			n := len(a.Mirror.Msgs)
+			k := rapid.IntRange(1, n-1).Draw(t, "victim")
+
+			for i, m := 0, rapid.IntRange(1, 2).Draw(t, "before"); i < m; i++ {
+				do("store", fmt.Sprintf("STORE %d %sFLAGS (%s)", rapid.IntRange(k+1, n).Draw(t, "later"), pick(t, "bop", []string{"+", "-", "+"}), flag()))
+			}
+
+			if r := do("store", fmt.Sprintf(`STORE %d +FLAGS (\Deleted)`, k)); !r.OK() {
+				return
+			}
+
+			w.steerOwnRemoval(a)
+
+			if r := do("expunge", "EXPUNGE"); !r.OK() {
+				return
+			}
+
+			for i, m := 0, rapid.IntRange(1, 2).Draw(t, "after"); i < m && len(a.Mirror.Msgs) >= k; i++ {
+				do("store", fmt.Sprintf("STORE %d %sFLAGS (%s)", rapid.IntRange(k, len(a.Mirror.Msgs)).Draw(t, "shifted"), pick(t, "bop", []string{"+", "-", "+"}), flag()))
+			}
+		},
 		"connCreateDelete": func(t *rapid.T) {
 			box := w.PickBox(t)
 			d1, d2, m := w.ConnCreateDelete(t, box)
